@@ -173,6 +173,12 @@ root:
 				midiDev.ProcessEvents(inputEvents)
 
 				log.Info("Device disconnected", zap.String("device_name", dev.Name), logger.Info)
+				// the device no longer reads its midi input: keep draining it until the output is removed, otherwise the
+				// fan-out (blocked on this full output while holding its lock) would never let DespawnOutput in
+				go func() {
+					for range midiIn {
+					}
+				}()
 				err = midiEventsInSpawner.DespawnOutput(id)
 				if err != nil {
 					log.Info(
